@@ -184,6 +184,22 @@ impl BModel {
             Err(mm("C07", "order_or_skipped_value", format!("{} returned {:?} which is not a prefix of this receiver's view; {}", op, xs, self.describe())))
         }
     }
+    /// Futures of the broadcast channel act when polled: a send future writes its value in the poll
+    /// that completes it, a receive future takes its value in the poll that completes it.
+    pub fn poll_send_fut(&mut self, v: Id, out: &Out, op: &str) -> Result<(), Mismatch> {
+        match out {
+            Out::Pending => Ok(()),
+            Out::SendOk => self.send1(v, out, false, op),
+            Out::SendClosed(_) => self.send1(v, out, false, op),
+            o => Err(mm("C07", "wrong_result", format!("{} completed with {:?}", op, o))),
+        }
+    }
+    pub fn poll_recv_fut(&mut self, h: usize, out: &Out, op: &str) -> Result<(), Mismatch> {
+        match out {
+            Out::Pending => Ok(()),
+            _ => self.recv1(h, out, &Out::Pending, op),
+        }
+    }
     pub fn observe_rx_len(&self, h: usize, len: usize, who: &str) -> Result<(), Mismatch> {
         if self.rx[h] != HSt::Open {
             return Ok(());
